@@ -37,6 +37,16 @@ AUDIT = {
         (1, "bytes[..len] and s.as_bytes() both have length len (len <= MAX_INLINE tested on the branch)"),
     ("aranya_policy_text::repr::Repr::from_str", "index[[u8; 22]]"):
         (1, "bytes[..len] with len <= MAX_INLINE == 22 on this branch"),
+    ("aranya_policy_module::codemap::CodeMap::span_from_instruction", "index[Vec]"):
+        (1, "mapping[idx]: idx is binary_search's Ok(idx) or Err(idx)-1 with idx >= 1, both < len"),
+    ("aranya_policy_module::codemap::SpannedText::as_str", "index[str]"):
+        (1, "text[start..end]: SpannedText::new only succeeds when text.get(start..end) is Some (checked by R4)"),
+    ("aranya_policy_module::codemap::SpannedText::linecol", "assert"):
+        (1, "assert!(pos <= len): pos is start or end, both <= len by SpannedText::new (R4 checks the bound is <=, not <)"),
+    ("aranya_policy_module::codemap::SpannedText::linecol", "index[str]"):
+        (1, "text[0..pos]: pos is a char boundary <= len by SpannedText::new"),
+    ("aranya_policy_module::codemap::SpannedText::linecol", "expect"):
+        (2, "line/col counters: at most text.len() increments, cannot wrap usize"),
     ("aranya_policy_text::repr::arc::ArcStrInner::layout", "expect"):
         (2, "Layout::array::<u8>(len) for len = s.len() <= isize::MAX always fits; header + len fits for any real str"),
 }
@@ -122,7 +132,7 @@ def run(F, rep, tier):
     rep.floor("inner re-matches with a default arm", inner_n, 3)
 
     # --- R2: progmem[pc] guard
-    idx = [c for c in step.calls if c.is_("ops::Index::index") and "Vec" in (c.self_ty or "")]
+    idx = [c for c in step.calls if c.is_("Index::index") and "Vec" in (c.self_ty or "")]
     ge = None
     for s in step.stmts():
         if s.rv_kind() == "bin" and s.rv[1] == "Ge":
@@ -137,6 +147,28 @@ def run(F, rep, tier):
         rep.check(ge is not None and ge[1] is not None and step.dominates(ge[1], c.bb), "step|progmem-index-guard",
                   "K2 guarded-by", "progmem[pc] is dominated by the false edge of `pc >= progmem.len()`", site=c.site())
     rep.floor("progmem index sites", len(idx), 1)
+
+    # --- R4: code-map positions (error reporting path of every failing instruction)
+    new = F.fn("aranya_policy_module::codemap::SpannedText::new")
+    aggs = [(f, s) for f in F.fns for s in f.stmts() if s.rv_kind() == "agg" and s.rv[1].get("adt", "").endswith("codemap::SpannedText")]
+    gets = [c for c in new.calls if c.is_("str::get")]
+    ok = bool(aggs) and all(f is new for f, _ in aggs) and len(gets) == 1
+    if ok:
+        isome = [c for c in new.calls if c.is_("Option::is_some")]
+        oe = new.outcome_edges(isome[0]) if isome else {}
+        ok = "true" in oe and all(new.dominates(oe["true"][1], s.bb) for _, s in aggs)
+    rep.check(ok, "SpannedText|constructed-only-when-in-range", "K3 who-may-construct",
+              "SpannedText {..} is built only in SpannedText::new on the `text.get(start..end).is_some()` edge", site=new.site())
+    lc = F.fn("aranya_policy_module::codemap::SpannedText::linecol")
+    panics = [c for c in lc.calls if k4.callee_kind(c) and k4.callee_kind(c)[1] == "assert"]
+    for c in panics:
+        guards = [g for g in lc.cmp_switches() if c.bb in lc.reachable(g["f"]) and c.bb not in lc.reachable(g["t"])]
+        good = len(guards) == 1 and guards[0]["op"] == "Le" and guards[0]["a"].place is not None \
+            and 2 in lc.backward_sources(guards[0]["a"].place.local)[0]
+        rep.check(good, "linecol|assert-admits-end", "K2 guarded-by",
+                  "linecol's assertion is `pos <= text.len()` (SpannedText::new admits start == end == len)",
+                  "linecol asserts a bound stricter than what SpannedText::new guarantees (pos may equal text.len()): host panic on a span at end of text",
+                  lc.site(c.line))
 
     # --- R3: K4
     entries = []
